@@ -141,8 +141,10 @@ def run(W, chk):
     multi = PredTrue("assume multi-asset", lambda pn, pa: pn == "eq" and origin_match(pa[0], r"^info\.funds\[\*\]$") and exact_origins(pa[1]) == {"Const(1_usize)"})
     gt1 = PredFalse("assume tolerance > 1", lambda pn, pa: rel_sign(pn, pa, lambda v: exact_origins(v) == {T}, ">", lambda v: exact_origins(v) == {"Const(1)"}))
     some = VariantEdge("assume tolerance given", r"^msg\.ProvideLiquidity\.liquidity_max_slippage$", ["None"])
+    from rules.common import pred_tree_has, zero_test
+    _pool_zero = zero_test(lambda v: exact_origins(v) == {"Store(POOLS).assets[*].amount"})      # `amount == zero()` / `amount.is_zero()`
     funded = PredTrue("assume pool funded", lambda pn, pa: pn == "any" and origin_match(pa[0], r"^Store\(POOLS\)\.assets\[\*\]\.amount$", False) and
-                      "Const(0)" in all_origins(pa[0]))
+                      ("Const(0)" in all_origins(pa[0]) or pred_tree_has(pa[0], _pool_zero)))
     pol = CutPolicy([multi, gt1, some, funded])
     B = W.run(PM, "execute", ("ProvideLiquidity",), pol)
     chk.expect("assume tolerance > 1" in pol.hits and not pool_writes(B), "CUT-tolerance-above-1", "refused", "a tolerance above 1 on a funded pool never reaches the pool write",
